@@ -427,7 +427,7 @@ def run(ctx):
 def replay(ctx, path):
     rp = json.load(open(path))
     case = rp["case"]
-    binp = ctx.build("server")
+    binp = ctx.build("server", race=isinstance(case, dict) and "report" in case)
     bad = False
     if isinstance(case, dict) and "events" in case and "mode" in case and "plan" not in case:
         evs = case["events"]
